@@ -47,7 +47,7 @@ def serial_number_wrapper(f):
     @functools.wraps(f)
     @excel_helper(number_params=0)
     def wrapped(date_serial_number):
-        if date_serial_number < 0:
+        if date_serial_number < 0 or date_serial_number >= DATE_MAX_INT:
             return NUM_ERROR
         return f(date_serial_number)
     return wrapped
@@ -411,7 +411,9 @@ def date(year, month_, day):
         if result <= 60:
             result -= 1
     except ValueError:
-        assert (year, month_, day) == LEAP_1900_TUPLE
+        if (year, month_, day) != LEAP_1900_TUPLE:
+            # beyond the last legal date
+            return NUM_ERROR
         result = 60.0
 
     if result < 0:
@@ -501,9 +503,12 @@ def months_inc(start_date, months, eomonth=False):
         return VALUE_ERROR
     if start_date < 0:
         return NUM_ERROR
+    if start_date >= DATE_MAX_INT:
+        return NUM_ERROR
     y, m, d = date_from_int(start_date)
     if eomonth:
-        return date(y, m + months + 1, 1) - 1
+        result = date(y, m + months + 1, 1)
+        return result if isinstance(result, str) else result - 1
     else:
         return date(y, m + months, d)
 
